@@ -11,12 +11,12 @@ class C27(Prop):
     check_mod = "C27"
     drivers = [dict(pkg="internal/recorder", test="TestVerifC27Rec", timeout=600),
                dict(pkg="internal/playback", test="TestVerifC27", timeout=900)]
-    n_quick = 2500
+    n_quick = 2000
     n_thorough = 60000
     shard = 500
     search_factor = 3
     level = "proof"
-    ready = False
+    ready = True
     manifest = dict(
         text="Coq theorems over the byte layout of a recorded fMP4 segment (init = ftyp box ++ moov box, then one moof box "
              "++ mdat box per part, one Write call each) and the crash model of the property (any prefix of the "
